@@ -12,7 +12,7 @@ import (
 
 func init() {
 	register("C19",
-		"Decides three structural necessary conditions of race freedom outside the documented buffer exemption: (1) atomic discipline - every struct field that is accessed through sync/atomic anywhere is accessed through sync/atomic everywhere, apart from a frozen table of initialisation / single-owner sites, each with its reason (whole-struct copies included); (2) guarded-by - the operator cache's free list and cache slice, its pending-free list, the ShardQueue shards and ring index, and the connection's adaptive sizes are only touched under their spin lock / mutex / slot token or from the poller-invoked callbacks; (3) race-build substitution is complete - under -tags race no call outside SafeLinkBuffer reaches an *UnsafeLinkBuffer method through promotion unless that method only touches atomic state, and every SafeLinkBuffer override has the shape Lock / defer Unlock / delegate to the same-named method with the same arguments. Not decided: race freedom in general (needs the detector and schedules), accesses that the API contract makes single-threaded.",
+		"Decides three structural necessary conditions of race freedom outside the documented buffer exemption: (1) atomic discipline - every struct field that is accessed through sync/atomic anywhere is accessed through sync/atomic everywhere, apart from a frozen table of initialisation / single-owner sites, each with its reason (whole-struct copies included); (2) guarded-by - the operator cache's free list and cache slice, its pending-free list, the ShardQueue shards and ring index, and the connection's adaptive sizes are only touched under their spin lock / mutex / slot token or from the poller-invoked callbacks; (3) race-build substitution is complete - under -tags race no call outside SafeLinkBuffer reaches an *UnsafeLinkBuffer method through promotion unless that method only touches atomic state, and every SafeLinkBuffer override has the shape Lock / defer Unlock / delegate to the same-named method with the same arguments. eventLoop.svr is accessed under the loop's mutex; onDisconnect reads connection.ctx only after lock(connecting) or onConnect==nil. Not decided: race freedom in general (needs the detector and schedules), accesses that the API contract makes single-threaded.",
 		[]string{"sync/atomic is linearizable", "the API's concurrency contract: one reader, one writer, any number of closers per connection"},
 		func(r *Run) {
 			cfgs := []string{"linux", "linux-race"}
